@@ -65,10 +65,12 @@ def muQ (qs : Nat → Option Queuer) (n : Nat) : Nat := sumTo (fun i => qm c (qs
 def muC (ch : Nat → Option T) (n : Nat) : Nat := sumTo (fun i => cm (ch i)) n
 def muW (ws : Nat → Option Worker) (n : Nat) : Nat := sumTo (fun i => wm (ws i)) n
 
+def b01 (b : Bool) : Nat := if b then 0 else 1
+theorem b01_or_le (a b : Bool) : b01 (a || b) ≤ b01 a := by cases a <;> cases b <;> decide
+
 /-- the termination measure -/
 def mu (s : St) : Nat :=
-  muA c s.st + muQ c s.qs s.nextQ + muC s.chan s.nextM + muW s.ws s.nextW +
-    (if s.initDone then 0 else 1) + (if s.stopped then 0 else 1)
+  muA c s.st + muQ c s.qs s.nextQ + muC s.chan s.nextM + muW s.ws s.nextW + b01 s.initDone + b01 s.stopped
 
 /-- the extra well-formedness the measure needs: everything lives inside `0 … n-1` -/
 structure Inv2 (s : St) : Prop where
@@ -130,5 +132,376 @@ theorem sumTo_push {α : Type} (g : Nat → α) (m : α → Nat) (n : Nat) (v : 
     sumTo (fun j => m (upd g n v j)) (n + 1) = sumTo (fun j => m (g j)) n + m v := by
   simp only [sumTo, upd_same]
   rw [sumTo_upd_out g m n n (Nat.le_refl n) v]
+
+theorem muQ_upd (qs : Nat → Option Queuer) (n i : Nat) (hi : i < n) (v : Option Queuer) :
+    muQ c (upd qs i v) n + qm c (qs i) = muQ c qs n + qm c v := sumTo_upd qs (qm c) n i hi v
+theorem muQ_push (qs : Nat → Option Queuer) (n : Nat) (v : Option Queuer) :
+    muQ c (upd qs n v) (n + 1) = muQ c qs n + qm c v := sumTo_push qs (qm c) n v
+theorem muC_upd (ch : Nat → Option T) (n i : Nat) (hi : i < n) (v : Option T) :
+    muC (upd ch i v) n + cm (ch i) = muC ch n + cm v := sumTo_upd ch cm n i hi v
+theorem muC_push (ch : Nat → Option T) (n : Nat) (v : Option T) :
+    muC (upd ch n v) (n + 1) = muC ch n + cm v := sumTo_push ch cm n v
+theorem muW_upd (ws : Nat → Option Worker) (n i : Nat) (hi : i < n) (v : Option Worker) :
+    muW (upd ws i v) n + wm (ws i) = muW ws n + wm v := sumTo_upd ws wm n i hi v
+theorem muW_push (ws : Nat → Option Worker) (n : Nat) (v : Option Worker) :
+    muW (upd ws n v) (n + 1) = muW ws n + wm v := sumTo_push ws wm n v
+
+/-- the closing tactic for `Inv2` -/
+macro "inv2_close" hi:ident : tactic =>
+  `(tactic| (constructor <;> first
+      | exact ($hi).qT | exact ($hi).qQueue | exact ($hi).qWaitR
+      | (intros; have := ($hi).qT; have := ($hi).qQueue; have := ($hi).qWaitR
+         simp only [upd] at *; grind)))
+
+theorem inv2_init : Inv2 c St.init := by
+  constructor <;> simp [St.init]
+
+theorem spawn_inv2 {s : St} (hi : Inv2 c s) (hwf : WF c) (t : T) (ht : t < c.n) (b f : Bool) (ns : TS) :
+    Inv2 c (spawn c s t b f ns) := by
+  unfold spawn
+  have := hwf t
+  inv2_close hi
+
+theorem qrt_inv2 {s : St} (hi : Inv2 c s) (hwf : WF c) (t : T) (ht : t < c.n) (f : Bool) : Inv2 c (qrt c s t f) := by
+  unfold qrt
+  repeat' split
+  all_goals first | exact hi | exact spawn_inv2 c hi hwf t ht _ _ _
+
+theorem taskDone_inv2 {s : St} (hi : Inv2 c s) : Inv2 c (taskDone s) := by
+  unfold taskDone; inv2_close hi
+
+theorem step_inv2 (hwf : WF c) {s s' : St} (hi : Inv2 c s) (h : Step c s s') : Inv2 c s' := by
+  obtain ⟨a, h⟩ := h
+  cases a with
+  | activate t force =>
+    simp only [fire] at h
+    split at h
+    · rename_i ht; cases h; exact qrt_inv2 c hi hwf t ht force
+    · cases h
+  | queuer i =>
+    simp only [fire] at h
+    split at h
+    · rename_i q hq
+      unfold queuerStep at h
+      split at h
+      · rename_i d r hph
+        cases h
+        have hd : d < c.n := hi.qQueue i q (d :: r) hq hph d (List.mem_cons_self)
+        have h1 := qrt_inv2 c hi hwf d hd q.force
+        have hqt := hi.qT i q hq
+        have hr : ∀ x ∈ r, x < c.n := fun x hx => hi.qQueue i q (d :: r) hq hph x (List.mem_cons_of_mem _ hx)
+        generalize qrt c s d q.force = s1 at h1
+        inv2_close h1
+      · rename_i hph; cases h
+        have hqt := hi.qT i q hq
+        have := hwf q.t
+        inv2_close hi
+      · rename_i d r hph
+        have hr : ∀ x ∈ r, x < c.n := fun x hx => hi.qWaitR i q (d :: r) hq hph x (List.mem_cons_of_mem _ hx)
+        have hqt := hi.qT i q hq
+        split at h
+        · split at h <;> (cases h; inv2_close hi)
+        · cases h
+      · rename_i hph
+        have hqt := hi.qT i q hq
+        split at h <;> (cases h; inv2_close hi)
+      · cases h; apply taskDone_inv2; inv2_close hi
+    · cases h
+  | take m => simp only [fire] at h; split at h <;> first | (cases h; inv2_close hi) | cases h
+  | drop m =>
+    simp only [fire] at h
+    split at h
+    · split at h <;> first | (cases h; inv2_close hi) | cases h
+    · cases h
+  | workerStart w => simp only [fire] at h; split at h <;> first | (cases h; inv2_close hi) | cases h
+  | workerOk w ts cached =>
+    simp only [fire] at h
+    split at h
+    · split at h <;> first | (cases h; inv2_close hi) | cases h
+    · cases h
+  | workerFail w => simp only [fire] at h; split at h <;> first | (cases h; inv2_close hi) | cases h
+  | workerDone w =>
+    simp only [fire] at h
+    split at h
+    · cases h; apply taskDone_inv2; inv2_close hi
+    · cases h
+  | initDone =>
+    simp only [fire] at h
+    split at h
+    · cases h
+    · cases h; apply taskDone_inv2; inv2_close hi
+  | stop => simp only [fire] at h; cases h; inv2_close hi
+
+theorem reach_inv2 (hwf : WF c) {s : St} (h : Reach c s) : Inv2 c s := by
+  induction h with
+  | init => exact inv2_init c
+  | step _ hs ih => exact step_inv2 c hwf ih hs
+
+/-! ### every state-changing step lowers the measure -/
+
+theorem spawn_mu {s : St} (hi : Inv c s) (t : T) (ht : t < c.n) (b f : Bool) (ns : TS)
+    (hr : (s.st t).rank < ns.rank) : mu c (spawn c s t b f ns) + 8 ≤ mu c s := by
+  have h1 := muA_upd c s.st t ht ns hr
+  have h2 := muQ_push c s.qs s.nextQ (some ⟨t, b, f, .queueDeps (c.deps t)⟩)
+  simp only [mu, spawn]
+  rw [h2]
+  have : qm c (some ⟨t, b, f, .queueDeps (c.deps t)⟩) = (c.deps t).length + (c.deps t).length + 4 := rfl
+  rw [this]
+  have : tw c t = 2 * (c.deps t).length + 12 := rfl
+  omega
+
+theorem qrt_mu {s : St} (hi : Inv c s) (t : T) (ht : t < c.n) (f : Bool) :
+    qrt c s t f = s ∨ mu c (qrt c s t f) + 8 ≤ mu c s := by
+  unfold qrt
+  split
+  · exact .inl rfl
+  · split
+    · split
+      · rename_i h
+        right; apply spawn_mu c hi t ht
+        rcases h with h | h <;> rw [h] <;> decide
+      · exact .inl rfl
+    · split
+      · rename_i h
+        right; apply spawn_mu c hi t ht
+        rw [h]; decide
+      · exact .inl rfl
+
+theorem qrt_mu_le {s : St} (hi : Inv c s) (t : T) (ht : t < c.n) (f : Bool) : mu c (qrt c s t f) ≤ mu c s := by
+  rcases qrt_mu c hi t ht f with h | h
+  · rw [h]; exact Nat.le_refl _
+  · omega
+
+theorem taskDone_mu (s : St) : mu c (taskDone s) ≤ mu c s := by
+  simp only [mu, taskDone]
+  have := b01_or_le s.stopped (decide (s.numPending - 1 ≤ 0))
+  omega
+
+theorem qrt_qs_old {s : St} (hi : Inv c s) (t : T) (f : Bool) (i : Nat) (q : Queuer) (hq : s.qs i = some q) :
+    (qrt c s t f).qs i = some q ∧ i < (qrt c s t f).nextQ := by
+  have hlt := hi.qFresh i q hq
+  have hne : i ≠ s.nextQ := Nat.ne_of_lt hlt
+  unfold qrt spawn
+  repeat' split
+  all_goals simp [upd, hne, hq]
+  all_goals omega
+
+/-- steps of the program itself (not an activation arriving from outside, not an external `Stop`) -/
+def Internal : Action → Prop
+  | .activate _ _ => False
+  | .stop => False
+  | _ => True
+
+theorem step_mu {s s' : St} (hi : Inv c s) (h2 : Inv2 c s) (a : Action) (h : fire c s a = some s') :
+    (s' = s ∧ ¬ Internal a) ∨ mu c s' < mu c s := by
+  cases a with
+  | activate t force =>
+    simp only [fire] at h
+    split at h
+    · rename_i ht; cases h
+      rcases qrt_mu c hi t ht force with e | e
+      · exact .inl ⟨e, fun h => h⟩
+      · right; omega
+    · cases h
+  | queuer i =>
+    simp only [fire] at h
+    split at h
+    · rename_i q hq
+      have hlt := hi.qFresh i q hq
+      right
+      unfold queuerStep at h
+      split at h
+      · rename_i d r hph
+        cases h
+        have hd : d < c.n := h2.qQueue i q (d :: r) hq hph d (List.mem_cons_self)
+        have hle := qrt_mu_le c hi d hd q.force
+        obtain ⟨hq1, hlt1⟩ := qrt_qs_old c hi d q.force i q hq
+        generalize qrt c s d q.force = s1 at hle hq1 hlt1
+        have e := muQ_upd c s1.qs s1.nextQ i hlt1 (some { q with ph := .queueDeps r })
+        rw [hq1] at e
+        have e1 : qm c (some q) = (d :: r).length + (c.deps q.t).length + 4 := by simp [qm, hph]
+        have e2 : qm c (some { q with ph := QPh.queueDeps r }) = r.length + (c.deps q.t).length + 4 := rfl
+        simp only [mu] at hle ⊢
+        simp only [List.length_cons] at e1
+        omega
+      · rename_i hph
+        cases h
+        have e := muQ_upd c s.qs s.nextQ i hlt (some { q with ph := if q.building then .waitDeps (c.deps q.t) else .done })
+        rw [hq] at e
+        have e1 : qm c (some q) = 0 + (c.deps q.t).length + 4 := by simp [qm, hph]
+        have e2 : qm c (some { q with ph := if q.building then QPh.waitDeps (c.deps q.t) else QPh.done }) ≤ (c.deps q.t).length + 2 := by
+          cases q.building <;> simp [qm]
+        simp only [mu]
+        omega
+      · rename_i d r hph
+        have e1 : qm c (some q) = r.length + 1 + 2 := by simp [qm, hph]
+        split at h
+        · split at h
+          · cases h
+            have e := muQ_upd c s.qs s.nextQ i hlt (some { q with ph := .done })
+            rw [hq] at e
+            have e2 : qm c (some { q with ph := QPh.done }) = 1 := rfl
+            have hb := hi.waitBuilding i q (d :: r) hq hph
+            have hact := hi.bqActive i q hq ⟨hb, by rw [hph]; simp⟩
+            have hA := muA_upd_le c s.st q.t .depFailed (by rw [hact]; decide)
+            simp only [mu]
+            omega
+          · cases h
+            have e := muQ_upd c s.qs s.nextQ i hlt (some { q with ph := .waitDeps r })
+            rw [hq] at e
+            have e2 : qm c (some { q with ph := QPh.waitDeps r }) = r.length + 2 := rfl
+            simp only [mu]
+            omega
+        · cases h
+      · rename_i hph
+        have e1 : qm c (some q) = 2 := by simp [qm, hph]
+        have e := muQ_upd c s.qs s.nextQ i hlt (some { q with ph := .done })
+        rw [hq] at e
+        have e2 : qm c (some { q with ph := QPh.done }) = 1 := rfl
+        split at h
+        · rename_i hact
+          cases h
+          have hA := muA_upd c s.st q.t (h2.qT i q hq) .pending (by rw [hact]; decide)
+          have hC := muC_push s.chan s.nextM (some q.t)
+          have : cm (some q.t) = 4 := rfl
+          have : tw c q.t = 2 * (c.deps q.t).length + 12 := rfl
+          simp only [mu]
+          rw [hC]
+          omega
+        · cases h
+          simp only [mu]
+          omega
+      · rename_i hph
+        cases h
+        have e1 : qm c (some q) = 1 := by simp [qm, hph]
+        have e := muQ_upd c s.qs s.nextQ i hlt none
+        rw [hq] at e
+        have e2 : qm c none = 0 := rfl
+        have ht := taskDone_mu c { s with qs := upd s.qs i none }
+        simp only [mu] at ht ⊢
+        simp only [taskDone] at ht ⊢
+        omega
+    · cases h
+  | take m =>
+    simp only [fire] at h
+    split at h
+    · rename_i t hm
+      cases h
+      right
+      have e := muC_upd s.chan s.nextM m (hi.mFresh m t hm) none
+      rw [hm] at e
+      have hW := muW_push s.ws s.nextW (some ⟨t, .taken⟩)
+      have : cm (some t) = 4 := rfl
+      have : cm none = 0 := rfl
+      have : wm (some ⟨t, .taken⟩) = 3 := rfl
+      simp only [mu]
+      rw [hW]
+      omega
+    · cases h
+  | drop m =>
+    simp only [fire] at h
+    split at h
+    · rename_i t hm
+      split at h
+      · cases h
+        right
+        have e := muC_upd s.chan s.nextM m (hi.mFresh m t hm) none
+        rw [hm] at e
+        have : cm (some t) = 4 := rfl
+        have : cm none = 0 := rfl
+        simp only [mu]
+        omega
+      · cases h
+    · cases h
+  | workerStart w =>
+    simp only [fire] at h
+    split at h
+    · rename_i t hw
+      cases h
+      right
+      have e := muW_upd s.ws s.nextW w (hi.wFresh w _ hw) (some ⟨t, .building⟩)
+      rw [hw] at e
+      have hp := hi.takenPending w t hw
+      have hA := muA_upd_le c s.st t .building (by rw [hp]; decide)
+      have : wm (some ⟨t, .taken⟩) = 3 := rfl
+      have : wm (some ⟨t, .building⟩) = 2 := rfl
+      simp only [mu]
+      omega
+    · cases h
+  | workerOk w ts cached =>
+    simp only [fire] at h
+    split at h
+    · rename_i t hw
+      split at h
+      · rename_i hb
+        cases h
+        right
+        have e := muW_upd s.ws s.nextW w (hi.wFresh w _ hw) (some ⟨t, .finished⟩)
+        rw [hw] at e
+        have hp := hi.wBuilding w t hw
+        have hA := muA_upd_le c s.st t ts (by
+          rw [hp]; simp only [TS.isBuilt, Bool.and_eq_true, decide_eq_true_eq] at hb
+          have : TS.built.rank = 6 := rfl
+          have : TS.building.rank = 4 := rfl
+          omega)
+        have : wm (some ⟨t, .building⟩) = 2 := rfl
+        have : wm (some ⟨t, .finished⟩) = 1 := rfl
+        simp only [mu]
+        omega
+      · cases h
+    · cases h
+  | workerFail w =>
+    simp only [fire] at h
+    split at h
+    · rename_i t hw
+      cases h
+      right
+      have e := muW_upd s.ws s.nextW w (hi.wFresh w _ hw) (some ⟨t, .finished⟩)
+      rw [hw] at e
+      have hp := hi.wBuilding w t hw
+      have hA := muA_upd_le c s.st t .failed (by rw [hp]; decide)
+      have : wm (some ⟨t, .building⟩) = 2 := rfl
+      have : wm (some ⟨t, .finished⟩) = 1 := rfl
+      simp only [mu]
+      omega
+    · cases h
+  | workerDone w =>
+    simp only [fire] at h
+    split at h
+    · rename_i t hw
+      cases h
+      right
+      have e := muW_upd s.ws s.nextW w (hi.wFresh w _ hw) none
+      rw [hw] at e
+      have : wm (some ⟨t, .finished⟩) = 1 := rfl
+      have : wm none = 0 := rfl
+      have ht := taskDone_mu c { s with ws := upd s.ws w none }
+      simp only [mu] at ht ⊢
+      simp only [taskDone] at ht ⊢
+      omega
+    · cases h
+  | initDone =>
+    simp only [fire] at h
+    split at h
+    · cases h
+    · rename_i hn
+      cases h
+      right
+      have ht := taskDone_mu c { s with initDone := true }
+      simp only [mu] at ht ⊢
+      simp only [taskDone] at ht ⊢
+      have e0 : b01 s.initDone = 1 := by simp [b01, hn]
+      have e1 : b01 true = 0 := rfl
+      omega
+  | stop =>
+    simp only [fire] at h
+    cases h
+    by_cases hs : s.stopped = true
+    · left; exact ⟨by cases s; simp_all, fun h => h⟩
+    · right
+      have e0 : b01 s.stopped = 1 := by simp [b01, hs]
+      have e1 : b01 true = 0 := rfl
+      simp only [mu]
+      omega
 
 end PlzVerif.Sched
